@@ -10,6 +10,7 @@ import SaModel.Lemmas.C06Readable
 import SaModel.Lemmas.C06Typed
 import SaModel.Lemmas.C06SafeT
 import SaModel.Lemmas.C06Phys
+import SaModel.Lemmas.C06PhysSize
 /-
 C06 — a schema traced from samples accepts those same samples: the chain closed end to end.
 
@@ -22,16 +23,17 @@ C06 — a schema traced from samples accepts those same samples: the chain close
                         (`Props.C01.toMarrow_complete'`, ALL schema hypotheses discharged: input-side hypotheses + capacity)
   C06_closure_decode    whenever `to_marrow` returns arrays, they decode (Arrow reading rules) column by column to
                         `interpRow` of the samples (`Props.C01.C01_build_decode'`)
-  C06_closure_readback  … and `deserialize_any` on the arrays returns those logical values — NO reader-side hypothesis
-                        (`Props.C03.toMarrow_readAny`: the built arrays satisfy the reader preconditions of C02); for tracing
-                        options without dictionary-encoded strings.  `C06_closure_readback_partial`: all options, with the size
-                        precondition `Read.physical` of the dictionary columns as a hypothesis (derived by
-                        `C06_closure_physical` under the capacity bound)
-  C06_closure           the composition, options without dictionary encoding: hypotheses on the input only
-  C06_closure_dict      the composition for every option: hypotheses on the input only (capacity bound strict)
+  C06_closure_physical  the size precondition `Read.physical` of the reader holds for the arrays built from a traced schema, EVERY
+                        option (dictionary-encoded strings included), when there are at most `i64::MAX` samples
+                        (`Props.C03.toMarrow_physical`: the builders' counting invariant; a traced schema has no FixedSizeList)
+  C06_closure_readback  … and `deserialize_any` on the arrays returns those logical values — NO reader-side hypothesis, every
+                        option (`Props.C03.toMarrow_readAny_of_physical` + `C06_closure_physical`); input-side size hypothesis
+                        `xs.length ≤ i64::MAX`.  `C06_closure_readback_nodict`: options without dictionary-encoded strings, no
+                        size hypothesis at all (`Read.physical` from `Spec.WF`)
+  C06_closure           the composition, EVERY option: hypotheses on the input only (capacity `Σ vsize ≤ 2^31 - 1`)
 No theorem of this file carries C01's `Safe` any more: the builder side is the hidden-rows refinement of Props/C01Obs.lean /
 Props/C01CompleteObs.lean.  `safeSchema` (the former hypothesis) is kept below only to state what the old theorems excluded
-(`safeSchema_can_fail`, now an instance of `C06_closure_dict`).
+(`safeSchema_can_fail`, now an instance of `C06_closure`).
 
 Exclusions, each an explicit decidable predicate on (data type of the traced field, sample) — `Lemmas/C06Excl.lean`:
 the three DOCUMENTED ones `nullAtEnum`, `dateLookalike`, `u64AboveI64`; the known finding `dataLessNewtype`; lifted to
@@ -238,25 +240,39 @@ theorem fromSamples_readable (o : Options) (h0 : o.overwrites = []) {xs : List S
   obtain ⟨t, n, children, md, ht, hs, _, _⟩ := fromSamples_root h
   exact to_schema_readable o h0 t (fromSamples_inv ht).wf fields hs
 
-/-- **`C06_closure_readback_partial`**: reading the arrays back with `deserialize_any` reproduces the samples — slot `i` of
+/-- **`C06_closure_physical`**: the size precondition `Read.physical` of the reader (the value count of every Dictionary
+column fits `i64`) holds for the arrays `to_marrow` builds from a traced schema — for EVERY option, dictionary-encoded strings
+included — when the collection has at most `i64::MAX` samples.  No counting of distinct strings and no capacity argument:
+`Props.C03.toMarrow_physical` (the builders' counting invariant: a dictionary holds at most as many values as keys were pushed)
+with the size condition `sizeOKDT` discharged from the shape of traced schemas (no FixedSizeList: `to_schema_physKeys`,
+`Lemmas.C06.traced_sizeOK`).  No `Safe`, no exclusion, no `ExtOK`.  (`Props.C03.wf_not_physical`: `Spec.WF` of the arrays alone
+could not give it.) -/
+theorem C06_closure_physical (o : Options) (ext : Ext) (h0 : o.overwrites = []) (xs : List SVal) (fields : List Field)
+    (arrs : List Arr) (h : fromSamples .fixed o xs = .ok fields)
+    (hok : ∀ x ∈ xs, SampleOK o x)
+    (hsz : xs.length ≤ 9223372036854775807)
+    (hm : toMarrow ext fields xs = .ok arrs) : ∀ a ∈ arrs, Read.physical a = true := by
+  obtain ⟨t, n, children, md, ht, hs, _, _⟩ := fromSamples_root h
+  have hside := to_schema_side_of_WF o h0 t (fromSamples_inv ht).wf fields hs
+  exact Props.C03.toMarrow_physical ext fields xs arrs hside.2 (fun x hx => sampleOK_noRaw _ x (hok x hx))
+    (traced_sizeOK fields xs.length (to_schema_physKeys o h0 t (fromSamples_inv ht).wf fields hs) hsz) hm
+
+/-- **`C06_closure_readback`**: reading the arrays back with `deserialize_any` reproduces the samples — slot `i` of
 column `j` reads as the `toD` rendering of the logical value the documented mapping gives field `j` of sample `i`
 (`cols` as in `C06_closure_decode`: `interpRow ext fields xs[i]` is the struct of the `i`-th column entries).
-Every tracing option.  The reader-side preconditions `Read.new … = ok` and `utf8Ok` of `read_any_decode` are no longer
-hypotheses: they are derived for the built arrays (`Props.C03.toMarrow_readAny_partial`: `wf_new` with
-`fromSamples_readable`, `wf_utf8`) from `C03_wfS'`, whose input-side hypotheses appear instead — `hext` (`ExtOK`: the external
-chrono parsers return values in range; a theorem for the codec models, `Props.C03.codecExt_ok`) and `hval` (`SValOK`: f32 /
-f64 / integer calls carry values of their width; implied by `SVal.typed`).
-PARTIAL — what remains: `hphys`, the size precondition `Read.physical` (the value count of a dictionary column fits `i64`):
-not derived HERE (this theorem has no size hypothesis on the samples, and `Spec.WF` alone cannot give it:
-`Props.C03.wf_not_physical`).  It is derived by `C06_closure_physical` when the samples are not excluded and sum to less than
-`2^31 - 1` — see `C06_closure_dict` — and for options without dictionary encoding (`C06_closure_readback`). -/
-theorem C06_closure_readback_partial (o : Options) (ext : Ext) (h0 : o.overwrites = []) (xs : List SVal)
+EVERY tracing option, NO reader-side hypothesis: `Read.new … = ok`, `utf8Ok` and `Read.physical` of `read_any_decode` are
+derived for the built arrays (`Props.C03.toMarrow_readAny_of_physical`: `wf_new` with `fromSamples_readable`, `wf_utf8`, from
+`C03_wfS'`; `C06_closure_physical`).  Remaining hypotheses, all on the input side: `hok` (samples are serde values), `hext` (`ExtOK`:
+the external chrono parsers return values in range; a theorem for the codec models, `Props.C03.codecExt_ok`), `hval` (`SValOK`: f32 /
+f64 / integer calls carry values of their width; implied by `SVal.typed`), `hsz` (at most `i64::MAX` samples — the former
+array-side hypothesis `hphys : Read.physical` is gone). -/
+theorem C06_closure_readback (o : Options) (ext : Ext) (h0 : o.overwrites = []) (xs : List SVal)
     (fields : List Field) (arrs : List Arr) (h : fromSamples .fixed o xs = .ok fields)
     (hok : ∀ x ∈ xs, SampleOK o x)
     (hext : Lemmas.C03.ExtOK ext)
     (hval : ∀ x ∈ xs, Lemmas.C03.SValOK x)
-    (hm : toMarrow ext fields xs = .ok arrs)
-    (hphys : ∀ a ∈ arrs, Read.physical a = true) :
+    (hsz : xs.length ≤ 9223372036854775807)
+    (hm : toMarrow ext fields xs = .ok arrs) :
     ∃ cols : List (String × List LVal), cols.length = arrs.length ∧
       (∀ (i : Nat) (hi : i < xs.length),
         interpRow ext fields xs[i] = .ok (.struct (LFields.ofList (cols.map fun c => (c.1, c.2.getD i .null))))) ∧
@@ -266,18 +282,16 @@ theorem C06_closure_readback_partial (o : Options) (ext : Ext) (h0 : o.overwrite
   obtain ⟨t, n, children, md, ht, hs, _, _⟩ := fromSamples_root h
   have hside := to_schema_side_of_WF o h0 t (fromSamples_inv ht).wf fields hs
   have hread := fromSamples_readable o h0 h
-  obtain ⟨_, cols, hcl, _, hc4, hrd⟩ := Props.C03.toMarrow_readAny_partial ext fields xs arrs hside.1 hside.2
-    (fun x hx => sampleOK_noRaw _ x (hok x hx)) hext hval (fun f hf => Lemmas.C03.readableDT_of_F (hread f hf)) hphys hm
+  obtain ⟨_, cols, hcl, _, hc4, hrd⟩ := Props.C03.toMarrow_readAny_of_physical ext fields xs arrs hside.1 hside.2
+    (fun x hx => sampleOK_noRaw _ x (hok x hx)) hext hval (fun f hf => Lemmas.C03.readableDT_of_F (hread f hf))
+    (C06_closure_physical o ext h0 xs fields arrs h hok hsz hm) hm
   exact ⟨cols, hcl, hc4, hrd⟩
 
-/-- **`C06_closure_readback`**: the same with NO reader-side hypothesis, for tracing options that
+/-- **`C06_closure_readback_nodict`**: the same with NO size hypothesis at all, for tracing options that
 never dictionary-encode strings (`string_dictionary_encoding = false`, `enums_without_data_as_strings = false`): the
 traced schema then has no Dictionary (and never a FixedSizeList) column — `Lemmas.C06.to_schema_physFree` — and `Read.physical`
-follows from `Spec.WF` (`Props.C03.wf_physical_partial`).  Trace ⇒ build ⇒
-read back: whenever `to_marrow` with the traced schema returns arrays for the collection, `deserialize_any` on slot `i` of
-column `j` returns the documented value of field `j` of sample `i`.  Remaining hypotheses are all on the input side: `hok`
-(samples are serde values), `hext`, `hval` (C03's `ExtOK`, `SValOK`). -/
-theorem C06_closure_readback (o : Options) (ext : Ext) (h0 : o.overwrites = []) (xs : List SVal)
+follows from `Spec.WF` alone (`Props.C03.wf_physical_plain`). -/
+theorem C06_closure_readback_nodict (o : Options) (ext : Ext) (h0 : o.overwrites = []) (xs : List SVal)
     (fields : List Field) (arrs : List Arr) (h : fromSamples .fixed o xs = .ok fields)
     (hd : o.string_dictionary_encoding = false) (he : o.enums_without_data_as_strings = false)
     (hok : ∀ x ∈ xs, SampleOK o x)
@@ -293,23 +307,37 @@ theorem C06_closure_readback (o : Options) (ext : Ext) (h0 : o.overwrites = []) 
   obtain ⟨t, n, children, md, ht, hs, _, _⟩ := fromSamples_root h
   have hside := to_schema_side_of_WF o h0 t (fromSamples_inv ht).wf fields hs
   have hfree := to_schema_physFree o h0 hd he t (fromSamples_inv ht).wf fields hs
-  exact C06_closure_readback_partial o ext h0 xs fields arrs h hok hext hval hm
-    (Props.C03.toMarrow_physical_partial ext fields xs arrs hside.1 (Or.inr hside.2) hext hval hfree hm)
+  have hread := fromSamples_readable o h0 h
+  obtain ⟨hlen, hrdb⟩ := Props.C03.toMarrow_readable ext fields xs arrs hside.1 (Or.inr hside.2) hext hval
+    (fun f hf => Lemmas.C03.readableDT_of_F (hread f hf)) hm
+  have hphys : ∀ a ∈ arrs, Read.physical a = true := by
+    intro a ha
+    obtain ⟨j, hj, rfl⟩ := List.getElem_of_mem ha
+    have hjf : j < fields.length := by omega
+    exact (hrdb j fields[j] arrs[j] (List.getElem?_eq_getElem hjf) (List.getElem?_eq_getElem hj)).2.2.2
+      (hfree _ (List.getElem_mem hjf))
+  obtain ⟨_, cols, hcl, _, hc4, hrd⟩ := Props.C03.toMarrow_readAny_of_physical ext fields xs arrs hside.1 hside.2
+    (fun x hx => sampleOK_noRaw _ x (hok x hx)) hext hval (fun f hf => Lemmas.C03.readableDT_of_F (hread f hf)) hphys hm
+  exact ⟨cols, hcl, hc4, hrd⟩
 
 /-! ### the closure, composed -/
 
-/-- **`C06_closure`** — a schema traced from samples accepts those same samples, end to end, for tracing options that never
-dictionary-encode strings.  Whenever `from_samples` succeeds on the collection `xs`, then
+/-- **`C06_closure`** — a schema traced from samples accepts those same samples, end to end, for EVERY tracing option
+(dictionary-encoded strings — `string_dictionary_encoding`, `enums_without_data_as_strings` — included).  Whenever `from_samples`
+succeeds on the collection `xs`, then
   1. `to_marrow` with the traced schema ACCEPTS the collection: it returns arrays, one per traced field;
   2. the documented mapping of sample `i` under the traced schema is the struct of the `i`-th column entries (`cols`);
   3. `deserialize_any` on slot `i` of array `j` reproduces that entry (`toD`).
 Hypotheses — ALL on the input, all decidable: the samples are serde values a Rust program can produce (`hok`, `hval`), none of
 the three documented exclusions / the known finding `dataLessNewtype` applies (`hex`), the sizes of the samples sum to at most
 `i32::MAX` (`hcap`), the external chrono / float formatters are in range (`hext`; a theorem for the codec models).
-No hypothesis on the schema, the builder or the arrays remains. -/
+No hypothesis on the schema, the builder or the arrays remains: `Read.physical` is derived (`C06_closure_physical`), and C01's
+`Safe` — the former `hsafe : safeSchema fields` of the dictionary variant — is gone: a non-nullable dictionary-encoded string
+inside an `Option<struct>`, where the per-builder append-only statement R1 is false (`Props.C01.dict_placeholder_unstable`), is
+covered by the hidden-rows refinement; worked instance below, `wUnsafe`.  (Supersedes the former pair: the old `C06_closure` for options
+without dictionary encoding, and `C06_closure_dict` for every option with the strict bound `< 2^31 - 1`.) -/
 theorem C06_closure (o : Options) (ext : Ext) (h0 : o.overwrites = []) (xs : List SVal) (fields : List Field)
     (h : fromSamples .fixed o xs = .ok fields)
-    (hd : o.string_dictionary_encoding = false) (he : o.enums_without_data_as_strings = false)
     (hok : ∀ x ∈ xs, SampleOK o x) (hex : ∀ x ∈ xs, excludedRow ext fields x = false)
     (hcap : (xs.map (vsize ext)).sum ≤ 2147483647)
     (hext : Lemmas.C03.ExtOK ext)
@@ -322,73 +350,10 @@ theorem C06_closure (o : Options) (ext : Ext) (h0 : o.overwrites = []) (xs : Lis
           ∃ lv, (cols[j]?.map (·.2[i]?)) = some (some lv) ∧
             Read.readAny Read.Fixes.all arrs[j] i = .ok (Read.toD arrs[j] lv) := by
   obtain ⟨arrs, hm⟩ := C06_closure_build o ext h0 xs fields h hok hex hcap
+  have hsz : xs.length ≤ 9223372036854775807 := by
+    have := length_le_vsize_sum ext xs; omega
   exact ⟨arrs, hm, (C06_closure_decode o ext h0 xs fields arrs h hok hm).1,
-    C06_closure_readback o ext h0 xs fields arrs h hd he hok hext hval hm⟩
-
-/-- **`C06_closure_physical`**: the size precondition `Read.physical` of the reader (the value count of every Dictionary
-column fits `i64`) holds for the arrays `to_marrow` builds from a traced schema — for EVERY option, dictionary-encoded strings
-included — when the samples sum to LESS than the fresh head room `2^31 - 1`.  No counting of distinct strings: the builders'
-own capacity accounting bounds the value count.  `room` is at most the number of free keys of every dictionary
-(`2^32 - index.length` for the UInt32 keys the tracer emits), completeness of `push` gives `room root0 ≤ room root + Σ vsize`
-(`Props.C01.foldl_push_complete'`), `room root0 = 2^31 - 1` (`fromSamples_room`); so `1 ≤ room root`, every dictionary of the
-final state holds fewer than `2^32` values (`Lemmas.C06.physB_of_room`), and `into_array` keeps that
-(`Lemmas.C06.finish_physical`, on the weak state invariant `WFH`: no `Safe`).  (`Props.C03.wf_not_physical`: `Spec.WF` of the arrays alone could not give it.) -/
-theorem C06_closure_physical (o : Options) (ext : Ext) (h0 : o.overwrites = []) (xs : List SVal) (fields : List Field)
-    (arrs : List Arr) (h : fromSamples .fixed o xs = .ok fields)
-    (hok : ∀ x ∈ xs, SampleOK o x) (hex : ∀ x ∈ xs, excludedRow ext fields x = false)
-    (hcap : (xs.map (vsize ext)).sum < 2147483647)
-    (hm : toMarrow ext fields xs = .ok arrs) : ∀ a ∈ arrs, Read.physical a = true := by
-  obtain ⟨t, n, children, md, ht, hs, _, _⟩ := fromSamples_root h
-  have hside := to_schema_side_of_WF o h0 t (fromSamples_inv ht).wf fields hs
-  obtain ⟨root0, hnew⟩ := newRoot_traced o h0 t (fromSamples_inv ht) fields hs
-  obtain ⟨_, htot, _⟩ := to_schema_typed o h0 h
-  have hroom0 := fromSamples_room o h0 h hnew
-  obtain ⟨root, hfold, hroom⟩ := Props.C01.foldl_push_complete' ext (.struct (Fields.ofList fields)) false [] xs root0
-    (Build.WFH_of_WFB _ (newRoot_fresh hnew).1) (Build.newRoot_NoDictKey hnew) (newRoot_shape hside.2 hnew)
-    (by simp [total, htot])
-    (fun r hr => ⟨sampleOK_noRaw _ r (hok r hr), fromSamples_interpRow o ext h0 h r hr (hok r hr) (hex r hr)⟩)
-    (by rw [hroom0]; omega)
-  have hrun : runRows ext fields xs = .ok root := by simp only [runRows, hnew]; exact hfold
-  have hw := (Props.C01.runRows_rows' ext fields xs root0 root hnew hrun).1
-  have hb := Lemmas.C03.runRows_builtFor ext fields xs root (Build.push_takeRest ext) hrun
-  have hp := physB_of_room root _ false hb
-    (by simpa [physKeysDT] using to_schema_physKeys o h0 t (fromSamples_inv ht).wf fields hs) (by omega)
-  rw [Props.C03.toMarrow_eq, hrun] at hm
-  simp only [bind, Except.bind] at hm
-  cases hba : buildArrays ext root with
-  | error e => rw [hba] at hm; cases hm
-  | ok pr =>
-    obtain ⟨arrs', rest⟩ := pr
-    rw [hba] at hm
-    simp only [pure, Except.pure, Except.ok.injEq] at hm
-    subst hm
-    exact buildArrays_physical ext root rest arrs' hba hw hp
-
-/-- **`C06_closure_dict`** — the closure for EVERY option, dictionary-encoded strings (`string_dictionary_encoding`,
-`enums_without_data_as_strings`) included: whenever `from_samples` succeeds on the collection, `to_marrow` with the traced
-schema accepts it, the documented mapping of sample `i` is the struct of the `i`-th column entries, and `deserialize_any`
-reproduces every entry.  No hypothesis on the schema, the builder or the arrays (`Read.physical` is derived:
-`C06_closure_physical`; C01's `Safe` — the former `hsafe : safeSchema fields` — is gone: a non-nullable dictionary-encoded
-string inside an `Option<struct>`, where the per-builder append-only statement R1 is false
-(`Props.C01.dict_placeholder_unstable`), is covered by the hidden-rows refinement; worked instance below, `wUnsafe`).
-Compared with `C06_closure`: `hcap` is strict — the sizes sum to less than `2^31 - 1`. -/
-theorem C06_closure_dict (o : Options) (ext : Ext) (h0 : o.overwrites = []) (xs : List SVal) (fields : List Field)
-    (h : fromSamples .fixed o xs = .ok fields)
-    (hok : ∀ x ∈ xs, SampleOK o x) (hex : ∀ x ∈ xs, excludedRow ext fields x = false)
-    (hcap : (xs.map (vsize ext)).sum < 2147483647)
-    (hext : Lemmas.C03.ExtOK ext)
-    (hval : ∀ x ∈ xs, Lemmas.C03.SValOK x) :
-    ∃ arrs, toMarrow ext fields xs = .ok arrs ∧ arrs.length = fields.length ∧
-      ∃ cols : List (String × List LVal), cols.length = arrs.length ∧
-        (∀ (i : Nat) (hi : i < xs.length),
-          interpRow ext fields xs[i] = .ok (.struct (LFields.ofList (cols.map fun c => (c.1, c.2.getD i .null))))) ∧
-        ∀ (j : Nat) (hj : j < arrs.length) (i : Nat), i < xs.length →
-          ∃ lv, (cols[j]?.map (·.2[i]?)) = some (some lv) ∧
-            Read.readAny Read.Fixes.all arrs[j] i = .ok (Read.toD arrs[j] lv) := by
-  obtain ⟨arrs, hm⟩ := C06_closure_build o ext h0 xs fields h hok hex (by omega)
-  exact ⟨arrs, hm, (C06_closure_decode o ext h0 xs fields arrs h hok hm).1,
-    C06_closure_readback_partial o ext h0 xs fields arrs h hok hext hval hm
-      (C06_closure_physical o ext h0 xs fields arrs h hok hex hcap hm)⟩
+    C06_closure_readback o ext h0 xs fields arrs h hok hext hval hsz hm⟩
 
 /-! ### non-vacuity and necessity of the exclusions (kernel evaluation) -/
 
@@ -434,7 +399,7 @@ set_option maxRecDepth 1000000 in
 /-- **`safeSchema` can fail for a traced schema** (why the closure theorems needed the hidden-rows refinement): the tracer
 gives the Dictionary field the nullability of the string position, `build_builder` gives the key builder that nullability, and
 the `None` of the second sample sends `serialize_default` into non-nullable keys — C01's `dict_placeholder_unstable` shape,
-where the per-builder append-only statement R1 is false.  Every hypothesis of `C06_closure_build` / `C06_closure_dict` holds
+where the per-builder append-only statement R1 is false.  Every hypothesis of `C06_closure_build` / `C06_closure` holds
 and `to_marrow` accepts the collection (evaluated): the collection is INSIDE the present theorems (instance below), it was
 outside the former ones, which assumed `safeSchema`. -/
 theorem safeSchema_can_fail :
@@ -533,7 +498,7 @@ example : ∃ arrs, toMarrow {} wReadFields wRead = .ok arrs ∧ arrs.length = w
       ∀ (j : Nat) (hj : j < arrs.length) (i : Nat), i < wRead.length →
         ∃ lv, (cols[j]?.map (·.2[i]?)) = some (some lv) ∧
           Read.readAny Read.Fixes.all arrs[j] i = .ok (Read.toD arrs[j] lv) := by
-  refine C06_closure {} {} rfl wRead wReadFields wRead_trace rfl rfl ?_ ?_ ?_ ?_ ?_
+  refine C06_closure {} {} rfl wRead wReadFields wRead_trace ?_ ?_ ?_ ?_ ?_
   · decide
   · decide +kernel
   · decide +kernel
@@ -549,7 +514,7 @@ def wDictFields : List Field := [.mk "s" (.dictionary .uint32 .largeUtf8) false 
 set_option maxRecDepth 1000000 in
 theorem wDict_trace : fromSamples .fixed { string_dictionary_encoding := true } wDict = .ok wDictFields := by decide +kernel
 
-/-- non-vacuity of `C06_closure_dict` (and of `C06_closure_physical` inside it): a repeated and a two-byte string, dictionary
+/-- non-vacuity of `C06_closure` (and of `C06_closure_physical` inside it): a repeated and a two-byte string, dictionary
 encoded; every hypothesis is discharged — `to_marrow` accepts the collection and `deserialize_any` on the Dictionary column
 returns the strings of the samples -/
 example : ∃ arrs, toMarrow {} wDictFields wDict = .ok arrs ∧ arrs.length = wDictFields.length ∧
@@ -559,7 +524,7 @@ example : ∃ arrs, toMarrow {} wDictFields wDict = .ok arrs ∧ arrs.length = w
       ∀ (j : Nat) (hj : j < arrs.length) (i : Nat), i < wDict.length →
         ∃ lv, (cols[j]?.map (·.2[i]?)) = some (some lv) ∧
           Read.readAny Read.Fixes.all arrs[j] i = .ok (Read.toD arrs[j] lv) := by
-  refine C06_closure_dict { string_dictionary_encoding := true } {} rfl wDict wDictFields wDict_trace ?_ ?_ ?_ ?_ ?_
+  refine C06_closure { string_dictionary_encoding := true } {} rfl wDict wDictFields wDict_trace ?_ ?_ ?_ ?_ ?_
   · decide
   · decide +kernel
   · decide +kernel
@@ -582,7 +547,7 @@ example : safeSchema wUnsafeFields = false ∧ ∀ root0, newRoot wUnsafeFields 
   have := (fromSamples_safe_iff { string_dictionary_encoding := true } rfl wUnsafe_trace hnew).mp hs
   revert this; decide +kernel
 
-/-- … and `C06_closure_dict` applies to it with EVERY hypothesis discharged: `to_marrow` accepts `[{o: Some({d: "x"})},
+/-- … and `C06_closure` applies to it with EVERY hypothesis discharged: `to_marrow` accepts `[{o: Some({d: "x"})},
 {o: None}]` against the schema traced from it (the `None` sends the placeholder key 0 into the non-nullable dictionary
 keys), the documented mapping of sample `i` is the struct of the `i`-th column entries, and `deserialize_any` reproduces
 every entry -/
@@ -593,7 +558,7 @@ example : ∃ arrs, toMarrow {} wUnsafeFields wUnsafe = .ok arrs ∧ arrs.length
       ∀ (j : Nat) (hj : j < arrs.length) (i : Nat), i < wUnsafe.length →
         ∃ lv, (cols[j]?.map (·.2[i]?)) = some (some lv) ∧
           Read.readAny Read.Fixes.all arrs[j] i = .ok (Read.toD arrs[j] lv) := by
-  refine C06_closure_dict { string_dictionary_encoding := true } {} rfl wUnsafe wUnsafeFields wUnsafe_trace ?_ ?_ ?_ ?_ ?_
+  refine C06_closure { string_dictionary_encoding := true } {} rfl wUnsafe wUnsafeFields wUnsafe_trace ?_ ?_ ?_ ?_ ?_
   · decide
   · decide +kernel
   · decide +kernel
